@@ -1534,6 +1534,9 @@ func (c *EvalCtx) assume(x Expr) {
 	}
 	before := *c.nerr
 	t := c.boolean(x)
+	if os.Getenv("TQV_DEBUG") == "assume" {
+		fmt.Fprintf(os.Stderr, "assume %s => %s (errs %d->%d) dead=%v\n", exprStr(x), t, before, *c.nerr, c.st.dead)
+	}
 	if *c.nerr == before {
 		c.st.assume(t)
 	}
